@@ -370,6 +370,15 @@ def D6(m, R):
                     and isinstance(n_.targets[0].elts[1], ast.Starred):
                 rest_names.add(norm(n_.targets[0].elts[1].value))
                 first_names[norm(n_.targets[0].elts[0])] = '%s[0]' % args
+        # it = iter(args); first = next(it): the iterator then holds args[1:]
+        for n_ in f.walk():
+            if isinstance(n_, ast.Assign) and isinstance(n_.targets[0], ast.Name) and norm(n_.value) in ('iter(%s)' % args, 'iter(list(%s))' % args):
+                it_ = n_.targets[0].id
+                nexts = [x for x in f.walk() if isinstance(x, ast.Assign) and isinstance(x.targets[0], ast.Name) and norm(x.value) == 'next(%s)' % it_]
+                other = [x for x in f.walk() if isinstance(x, ast.Call) and call_name(x) == 'next' and x.args and is_name(x.args[0], it_)]
+                if len(nexts) == 1 and len(other) == 1:
+                    rest_names.add(it_)
+                    first_names[nexts[0].targets[0].id] = '%s[0]' % args
         if len(lp.body) == 1 and isinstance(lp.body[0], ast.AugAssign) and isinstance(lp.body[0].op, ast.Add) and \
                 norm(lp.body[0].value) == norm(lp.target) and norm(lp.iter) in rest_names:
             acc = norm(lp.body[0].target)
